@@ -161,6 +161,30 @@ def r1_aligned_pointer(ctx):
         ctx.check(shape, 'align_up-shape', 'align_up(addr, align) = (addr + align - 1) & !(align - 1)', fu.where(), show(v))
 
 
+def _addr_norm(t):
+    """an address expression as a plain sum: `ptr.add(n)` / `ptr.wrapping_add(n)` on `(x as *mut u8)`, `x.checked_add(n).expect(..)` /
+    `.unwrap()`, `x + n`  ->  ('sum', x, n)   (casts between usize and raw pointers dropped)"""
+    t = peel(t)
+    while t[0] == 'cast' or (t[0] == 'call' and t[1].split('::')[-1] in ('cast', 'cast_mut', 'cast_const', 'as_ptr', 'addr') and len(t[2]) == 1):
+        t = peel(t[2] if t[0] == 'cast' else t[2][0])
+    if t[0] == 'call' and t[1].split('::')[-1] in ('expect', 'unwrap', 'unwrap_unchecked') and t[2]:
+        inner = peel(t[2][0])
+        if inner[0] == 'call' and inner[1].endswith('::checked_add') and len(inner[2]) == 2:
+            return ('sum', canon(_addr_norm(inner[2][0])), canon(peel(inner[2][1])))
+    if t[0] == 'field' and t[2] == '0' and peel(t[1])[0] == 'as' and peel(t[1])[2] in ('Some', 'Ok'):
+        inner = peel(peel(t[1])[1])
+        if inner[0] == 'call' and inner[1].endswith('::checked_add') and len(inner[2]) == 2:
+            return ('sum', canon(_addr_norm(inner[2][0])), canon(peel(inner[2][1])))
+    if t[0] == 'call' and t[1].split('::')[-1] in ('add', 'wrapping_add', 'byte_add') and 'ptr' in t[1] and len(t[2]) == 2:
+        return ('sum', canon(_addr_norm(t[2][0])), canon(peel(t[2][1])))
+    if t[0] == 'bin' and str(t[1]).startswith('Add'):
+        return ('sum', canon(_addr_norm(t[2])), canon(peel(t[3])))
+    if t[0] == 'field' and t[2] == '0' and peel(t[1])[0] == 'bin' and str(peel(t[1])[1]).startswith('Add'):
+        b_ = peel(t[1])
+        return ('sum', canon(_addr_norm(b_[2])), canon(peel(b_[3])))
+    return t
+
+
 def r2_fit(ctx):
     ctx.set_rule('C15.R2')
     fr = ctx.anchor(IN + '::alloc_from_region')
@@ -198,7 +222,7 @@ def r2_fit(ctx):
             if a[0] == 'bool' and a[2] is False and a[1][0] == 'call' and a[1][1].endswith('Range::contains') and len(a[1][2]) == 2:
                 rg, x = peel_c(a[1][2][0]), a[1][2][1]
                 if rg[0] == 'agg' and len(rg[2]) == 2 and rg[2][0] == ('int', 1) and any(y[0] == 'call' and y[1].endswith('mem::size_of') for y in walk(rg[2][1])) and \
-                        any(y[0] == 'call' and (y[1].endswith('::checked_sub') or y[1].endswith('::sub')) for y in walk(x)) and _mentions_region_end(x):
+                        any((y[0] == 'call' and (y[1].endswith('::checked_sub') or y[1].endswith('::sub'))) or (y[0] == 'bin' and str(y[1]).startswith('Sub')) for y in walk(x)) and _mentions_region_end(x):
                     rem.append(a)
         ctx.check(len(rem) >= 1, 'remainder-test', 'a remainder that could not hold a free-list node is rejected', fr.where_path(path), [show_atom(a) for a in rem])
     # checked_add operand: alloc_start + size
@@ -221,7 +245,10 @@ def r2_fit(ctx):
             # the region end travels as a component of find_region's result
             e = simp(size[2])
             end_ok = e[0] == 'field' and e[2] == k_end and any(x[0] == 'call' and x[1] == IN + '::find_region' for x in walk(e))
-        size_ok = size[0] == 'bin' and size[1] == 'Sub' and end_ok and canon(size[3]) == canon(addr)
+        size_ok = size[0] == 'bin' and size[1] == 'Sub' and end_ok and (canon(size[3]) == canon(addr) or
+                                                                        (_addr_norm(size[3])[0] == 'sum' and _addr_norm(size[3]) == _addr_norm(addr)))
+        if not addr_ok and _addr_norm(addr)[0] == 'sum':
+            addr_ok = any(x[0] == 'call' and x[1] == IN + '::find_region' for x in walk(addr))
         ctx.check(addr_ok and size_ok, 'remainder-extent',
                   'the free remainder handed back is exactly [block end, region end): it starts at alloc_start + size and its length is region.end_addr() - block end '
                   '(any other length lets the free list reach into a neighbouring live block when the block was padded for alignment)', s.where(),
